@@ -95,7 +95,7 @@ impl Property for C16 {
         std_bounds(tier, 40)
     }
     fn cases(&self, tier: Tier) -> u32 {
-        tier.pick(40_000, 600_000)
+        tier.pick(100_000, 1_000_000)
     }
     fn strategy(&self, tier: Tier) -> BoxedStrategy<HistCase> {
         frag_hist(tier, 40)
@@ -258,6 +258,225 @@ impl Property for C17 {
             rep.nontrivial.push(fnv(format!("{}|{:?}", h.script.text, case.sched).as_bytes()));
         }
         rep.sample = Some(json!({"script": h.script.text, "host_calls": hcs.iter().take(3).map(|c| format!("{} {:?}", c.req.function, c.req.tetraplets)).collect::<Vec<_>>()}));
+        CaseResult::Ok(rep)
+    }
+}
+
+// ------------------------------------------------------------------------------ C19
+
+pub struct C19;
+
+use air_interpreter_data::{CallResult, CanonResult, ExecutedState, Sender};
+
+/// number of call / canon states marked "sent by `me`" (forwarded to their target)
+fn sent_marks(d: &air_interpreter_data::InterpreterData, me: &str) -> usize {
+    d.trace
+        .iter()
+        .filter(|s| match s {
+            ExecutedState::Call(CallResult::RequestSentBy(Sender::PeerId(p))) => p.as_str() == me,
+            ExecutedState::Canon(CanonResult::RequestSentBy(p)) => p.as_str() == me,
+            _ => false,
+        })
+        .count()
+}
+
+fn all_sent_marks(d: &air_interpreter_data::InterpreterData) -> Vec<String> {
+    d.trace
+        .iter()
+        .enumerate()
+        .filter_map(|(i, s)| match s {
+            ExecutedState::Call(CallResult::RequestSentBy(Sender::PeerId(p))) => Some(format!("{}:call sent by {}", i, &p[p.len().saturating_sub(4)..])),
+            ExecutedState::Call(CallResult::RequestSentBy(Sender::PeerIdWithCallId { peer_id, call_id })) => Some(format!("{}:call requested by {}:{}", i, &peer_id[peer_id.len().saturating_sub(4)..], call_id)),
+            ExecutedState::Canon(CanonResult::RequestSentBy(p)) => Some(format!("{}:canon sent by {}", i, &p[p.len().saturating_sub(4)..])),
+            _ => None,
+        })
+        .collect()
+}
+
+/// canon result CIDs with the peer recorded in their tetraplet
+fn canon_results(d: &air_interpreter_data::InterpreterData) -> Vec<(String, String)> {
+    let mut v = vec![];
+    for s in d.trace.iter() {
+        if let ExecutedState::Canon(CanonResult::Executed(c)) = s {
+            if let Some(r) = d.cid_info.canon_result_store.get(c) {
+                if let Some(t) = d.cid_info.tetraplet_store.get(&r.tetraplet) {
+                    v.push((c.get_inner().to_string(), t.peer_pk.clone()));
+                }
+            }
+        }
+    }
+    v
+}
+
+impl Property for C19 {
+    type Case = HistCase;
+    fn id(&self) -> &'static str {
+        "C19"
+    }
+    fn rule(&self) -> String {
+        "histories of fragment and stream scripts with literal, %init_peer_id%, variable and lens-selected targets. Per run: (a) every call request is a call the reference evaluator addresses to the issuing peer; (b) every canon result that is new in the run's data (not in prev or current data) carries the current peer in its tetraplet and the current peer is a designated peer of some canon of the script; (c) next_peer_pks has no duplicates and never the current peer; (d) a run that adds `sent by me` marks (more than prev data held) returns a non-empty next-peer list. At quiescence, in the sub-domain of stream-free scripts whose call arguments are literals and fold iterators (a reached call can always be executed by its target), the final data of all peers merged at an observer contains no call or canon state that is still marked as sent or requested. Non-trivial = a variable-addressed call and >= 3 peers ran; distinct by (script, schedule) hash".into()
+    }
+    fn assumptions(&self) -> Vec<String> {
+        vec![
+            "the quiescence claim is asserted only where it is unconditional: scripts whose call arguments are literals/iterators (a call marked as sent with unresolved scalar arguments legitimately stays marked when the value never reaches the target)".into(),
+            "reference evaluator for (a)".into(),
+        ]
+    }
+    fn bounds(&self, tier: Tier) -> Value {
+        std_bounds(tier, 40)
+    }
+    fn cases(&self, tier: Tier) -> u32 {
+        tier.pick(60_000, 800_000)
+    }
+    fn strategy(&self, tier: Tier) -> BoxedStrategy<HistCase> {
+        let lit = |profile: u8, t: Tier| hist_strategy(profile, t.pick(6, 8), t.pick(40, 80), 40, false).prop_map(|mut c| {
+            c.lit_args = true;
+            c
+        });
+        prop_oneof![2 => frag_hist(tier, 40), 3 => lit(0, tier), 2 => lit(1, tier), 1 => hist_strategy(1, tier.pick(5, 7), tier.pick(30, 60), 40, false)].boxed()
+    }
+    fn required_classes(&self) -> Vec<&'static str> {
+        vec!["ref:variable_target", "quiescent_no_marks_checked", "quiescent_stream_script_checked", "new_canon_result", "marks_added", "three_peers_ran", "has_canon"]
+    }
+    fn check(&self, case: &HistCase, _tier: Tier) -> CaseResult {
+        let h = match simulate(case) {
+            Ok(h) => h,
+            Err(e) => return CaseResult::Discard(e),
+        };
+        let mut rep = CaseReport { classes: hist_classes(&h), ..Default::default() };
+        let r = evaluate(&h.script);
+        let ref_ok = r.stats.unsupported.is_empty();
+        if ref_ok {
+            ref_classes(&r, &mut rep);
+        }
+        // designated peers of the script's canons (literal / init peer targets; variable targets via the reference)
+        let mut designated: std::collections::BTreeSet<String> = Default::default();
+        let mut unknown_designated = false;
+        h.script.instr.visit(&mut |n| {
+            if let crate::script::I::Canon { peer, .. } = n {
+                match peer {
+                    crate::script::Arg::Str(p) => {
+                        designated.insert(p.clone());
+                    }
+                    crate::script::Arg::InitPeer => {
+                        designated.insert(h.particle.init_peer_id.clone());
+                    }
+                    _ => unknown_designated = true,
+                }
+            }
+        });
+        for rr in &h.log {
+            rep.evals += 1;
+            let me = &h.script.peers[rr.peer].id;
+            // (c)
+            let mut seen = std::collections::BTreeSet::new();
+            for p in &rr.out.next_peers_raw {
+                if p == me {
+                    return CaseResult::Violation(viol("C19:next-peers-contain-self", format!("peer {} lists itself as next peer", h.script.peers[rr.peer].name), &h, rr.step), rep);
+                }
+                if !seen.insert(p.clone()) {
+                    return CaseResult::Violation(viol("C19:next-peers-duplicate", format!("next peers contain {} twice", p), &h, rr.step), rep);
+                }
+            }
+            if !is_new_data(rr.out.ret_code) {
+                continue;
+            }
+            // (a)
+            if ref_ok {
+                if let Ok(reqs) = &rr.out.requests {
+                    for (id, q) in reqs {
+                        let same_fn: Vec<&CallRec> = r.calls.iter().filter(|c| c.function == q.function && c.service == q.service && c.args == q.args).collect();
+                        if !same_fn.is_empty() && !same_fn.iter().any(|c| c.peer == *me) {
+                            return CaseResult::Violation(
+                                viol("C19:call-executed-on-wrong-peer", format!("peer {} executes {}.{} (request {}) which is addressed to {}", h.script.peers[rr.peer].name, q.service, q.function, id, same_fn[0].peer), &h, rr.step),
+                                rep,
+                            );
+                        }
+                    }
+                }
+            }
+            let (dp, dc, dn) = match (decode_data(&rr.prev), decode_data(&rr.cur), decode_data(&rr.out.data)) {
+                (Ok(a), Ok(b), Ok(c)) => (a, b, c),
+                _ => continue,
+            };
+            // (b)
+            let known: std::collections::BTreeSet<String> = canon_results(&dp.data).into_iter().chain(canon_results(&dc.data)).map(|x| x.0).collect();
+            for (cid, peer) in canon_results(&dn.data) {
+                if known.contains(&cid) {
+                    continue;
+                }
+                rep.classes.push("new_canon_result".into());
+                if peer != *me {
+                    return CaseResult::Violation(viol("C19:canon-attributed-to-other-peer", format!("peer {} produced a canon result attributed to {}", h.script.peers[rr.peer].name, peer), &h, rr.step), rep);
+                }
+                if !unknown_designated && !designated.contains(me) {
+                    return CaseResult::Violation(viol("C19:canon-on-undesignated-peer", format!("peer {} canonicalized a stream although no canon of the script is addressed to it", h.script.peers[rr.peer].name), &h, rr.step), rep);
+                }
+            }
+            // (d)
+            let before = sent_marks(&dp.data, me).max(sent_marks(&dc.data, me));
+            let after = sent_marks(&dn.data, me);
+            if after > before {
+                rep.classes.push("marks_added".into());
+                if rr.out.next_peers_raw.is_empty() {
+                    let mut v = viol("C19:marked-sent-but-not-forwarded", format!("peer {} marked {} more call/canon states as sent but returned no next peers", h.script.peers[rr.peer].name, after - before), &h, rr.step);
+                    v.detail["trace"] = json!(crate::model::show::trace(&dn.data));
+                    return CaseResult::Violation(v, rep);
+                }
+            }
+        }
+        // quiescence
+        // streams are excluded: the last instruction of a stream fold runs for whichever value a peer
+        // iterates last, which legitimately differs between peers (only the order of iterations may differ)
+        let stream_last_instr = {
+            let mut found = false;
+            h.script.instr.visit(&mut |n| {
+                if let crate::script::I::Fold { iterable: crate::script::Arg::Var { name, .. }, last: Some(l), .. } = n {
+                    if (name.starts_with('$') || name.starts_with('%')) && **l != crate::script::I::Null {
+                        found = true;
+                    }
+                }
+            });
+            found
+        };
+        if case.lit_args && (case.profile == 0 || !stream_last_instr) && h.quiescent && !h.inconclusive {
+            if case.profile != 0 {
+                rep.classes.push("quiescent_stream_script_checked".into());
+            }
+            let mut merged: Vec<u8> = vec![];
+            let mut ok = true;
+            for p in &h.peers {
+                if p.prev.is_empty() {
+                    continue;
+                }
+                let o = observe(&h.script, &h.particle, &merged, &p.prev);
+                rep.evals += 1;
+                if !is_new_data(o.ret_code) {
+                    ok = false;
+                    break;
+                }
+                merged = o.data;
+            }
+            if ok && !merged.is_empty() {
+                if let Ok(d) = decode_data(&merged) {
+                    rep.classes.push("quiescent_no_marks_checked".into());
+                    // the observer itself marks the calls it reaches while merging: not part of the history
+                    let obs_id = observer_key().id;
+                    let obs_tail = obs_id[obs_id.len() - 4..].to_string();
+                    let marks: Vec<String> = all_sent_marks(&d.data).into_iter().filter(|m| !m.ends_with(&format!("sent by {}", obs_tail))).collect();
+                    if !marks.is_empty() {
+                        let mut v = viol("C19:sent-but-never-executed", format!("every particle and call result was delivered, yet the merged final data still holds states marked as sent/requested: {:?}", marks), &h, h.log.len());
+                        v.detail["trace"] = json!(crate::model::show::trace(&d.data));
+                        return CaseResult::Violation(v, rep);
+                    }
+                }
+            }
+        }
+        let peers_run: std::collections::BTreeSet<usize> = h.log.iter().map(|x| x.peer).collect();
+        if h.script.feat.var_targets > 0 && peers_run.len() >= 3 {
+            rep.nontrivial.push(fnv(format!("{}|{:?}", h.script.text, case.sched).as_bytes()));
+        }
+        rep.sample = Some(sample_of(&h));
         CaseResult::Ok(rep)
     }
 }
